@@ -87,6 +87,8 @@ class MemTransport(transports.Transport):
     def write(self, data):
         if self._closing or self._eof_sent or self._loop.dead.get(self.component()):
             return
+        if self._loop.on_write:
+            self._loop.on_write(self, bytes(data))
         self.out.q.append(('data', bytes(data)))
 
     def writelines(self, lines):
@@ -180,6 +182,7 @@ class VLoop(base_events.BaseEventLoop):
         self._delays = {}
         self.eager_all = False   # True: no choice points at all (sequential histories)
         self.on_deliver = None   # hook(link, kind, data) for observers
+        self.on_write = None     # hook(transport, data) at the instant a component writes
         self.errors = []         # exceptions reported to the loop's exception handler
         self.set_exception_handler(self._on_exception)
         self.default_pick = 0
